@@ -38,6 +38,7 @@ CPU_CFLAGS = {"X86_AESNI": ["-maes"], "X86_RDRAND": ["-mrdrnd"], "X86_SHANI": ["
 DEFAULT_CPU = [f for f in ALL_CPU if f != "X86_RDRAND"]
 API = ["NONPOSIX_SETGROUPS", "LIBSSL_HOST_NAME", "LIBCRYPTO_LOW_LEVEL_AES"]
 
+SSL_SRC_RE = re.compile(r"(^network_ssl|^netbuf_ssl|^https\.c$)")  # compiled only on request (build_lib(with_ssl=True)); link with -lssl
 SKIP_SRC_RE = re.compile(r"(_arm\.c$|^cpusupport_arm_|^network_ssl|^netbuf_ssl|^https\.c$)")
 
 
@@ -138,7 +139,7 @@ def compile_one(cc, flags, src, objdir, extra_key=""):
     return obj
 
 
-def build_lib(variant="asan", cpu=None, exclude=(), only=None, extra_flags=()):
+def build_lib(variant="asan", cpu=None, exclude=(), only=None, extra_flags=(), with_ssl=False):
     """Compile the library sources; returns {basename.c: object path}."""
     cpu = DEFAULT_CPU if cpu is None else cpu
     srcs, _ = parse_makefile()
@@ -147,7 +148,7 @@ def build_lib(variant="asan", cpu=None, exclude=(), only=None, extra_flags=()):
     jobs = []
     for src, toks in srcs:
         bn = os.path.basename(src)
-        if SKIP_SRC_RE.search(bn) or bn in exclude:
+        if (SKIP_SRC_RE.search(bn) and not (with_ssl and SSL_SRC_RE.search(bn))) or bn in exclude:
             continue
         if only is not None and bn not in only:
             continue
